@@ -1,6 +1,7 @@
 import XtModel.Props.C01
 import XtModel.Props.C11
 import XtModel.Props.Json
+import XtModel.Props.C18
 
 /-!
 # C06 — Round trip and idempotence of xt's own output
@@ -46,5 +47,8 @@ theorem json_output_is_fixed_point (F : ExtFloat) (docs : List JVal) (h : docsOk
 #print axioms Xt.Props.C01.toml_reorder_idempotent
 #print axioms Xt.Props.C11.transcode_faithful
 #print axioms Xt.Props.C11.valuepath_faithful
+
+#print axioms Xt.Props.C18.msgpack_fixed_point
+#print axioms Xt.Props.C18.msgpack_fixed_point_any_input
 
 end Xt.Props.C06
